@@ -395,6 +395,49 @@ def upload_via(w, c, data, conv, until=None, horizon=3600.0):
 
 # ------------------------------------------------------------------ case families
 
+def family_literal_boundary(ck):
+    """Sizes at the literal-cap threshold (seeded/C44-9): a client that has a helper must return the same cap as a
+    client that has none -- a literal cap, with no helper call and no storage write -- for 0..55 bytes, and 56 bytes is
+    the first size that goes through the helper."""
+    from vf import imm
+    from vf.grid import VGrid
+    from allmydata.immutable.upload import Data
+    p = dict(k=2, n=3, happy=1, nservers=3, segsize=4096, size=55, chunk=1000, hk=1, hn=7, seed=44, profile="fifo")
+    w = World(p)
+    g2 = VGrid(nservers=3, seed=44, profile="fifo", keep_log=False)
+    try:
+        direct = g2.make_client(k=2, happy=1, n=3, max_segment_size=4096)
+        for size in (0, 1, 54, 55, 56):
+            data = imm.gen_data(ck.rng("lit", size), size)
+            st0, r0 = g2.wait(direct.upload(Data(data, convergence=b"")))
+            c, ch = w.client()
+            mark = len(w.g.calls)
+            st, res = upload_via(w, c, data, b"")
+            ck.mon("cap-equals-direct")
+            desc = dict(p, size=size)
+            ck.case("literal-boundary", key=("lit", size), sample=desc)
+            if st0 != "ok":
+                ck.skip("direct-upload-fails-too")
+                continue
+            if st != "ok":
+                ck.violation("helper-upload-failed-where-direct-succeeds",
+                             "%d-byte upload by a client with a helper %s, direct succeeded" % (size, st), desc)
+                continue
+            if size <= 55:
+                ck.hit("literal-size-upload-by-client-with-helper")
+            if res.get_uri() != r0.get_uri():
+                ck.violation("helper-readcap-differs-from-direct",
+                             "%d bytes: the client with a helper returned %r, the direct upload %r"
+                             % (size, res.get_uri()[:12], r0.get_uri()[:12]), desc)
+            elif size <= 55 and (storage_writes(w.g.calls, mark) or sum(ch.peer.calls.values())):
+                ck.violation("literal-file-sent-to-helper-or-grid",
+                             "%d bytes: literal cap returned, but %d storage writes and helper calls %r were made"
+                             % (size, len(storage_writes(w.g.calls, mark)), dict(ch.peer.calls)), desc)
+    finally:
+        g2.close()
+        w.close()
+
+
 def family_equivalence(ck, p, data, conv, ref, desc):
     """uninterrupted helper upload == direct; read back; second upload is 'already present'."""
     from vf import imm
@@ -847,6 +890,9 @@ def run(ck):
                 family_concurrent(ck, p, data, conv, ref, desc, crng)
             full += 1
 
+    if ck.shard == 0:
+        with ck.watchdog(120, "literal boundary"):
+            family_literal_boundary(ck)
     if ck.tier == "quick":
         # fixed work: the same cases whatever the load of the machine
         while i < 60 and (i < 10 or full < 4):
@@ -866,7 +912,8 @@ def run(ck):
                      "client-disconnected-mid-upload", "partial-ciphertext-kept-by-helper",
                      "partial-ciphertext-survived-helper-kill", "helper-killed:write", "helper-killed:rename",
                      "reupload-with-readable-but-incomplete-share-set", "direct-reupload-restored-shares",
-                     "staggered-start-in-check-phase", "two-clients-joined-one-upload")
+                     "staggered-start-in-check-phase", "two-clients-joined-one-upload",
+                     "literal-size-upload-by-client-with-helper")
 
 
 # MUST_CATCH (selftest/breaks_c44.py), all caught by the quick tier:
